@@ -223,13 +223,27 @@ def _term(term, z):
     return float(r)
 
 
+def _integer_valued(v, kind):
+    """an objective that counts: the floor of the raw value as a Python int / a numpy int64 (finite values only)"""
+    if not (isinstance(v, float) and math.isfinite(v)):
+        return v
+    n = math.floor(v)
+    return np.int64(n) if kind == "np" and abs(n) < 2 ** 62 else int(n)
+
+
 def objective_value(task_spec, z):
-    """Raw value the user's objective returns for features z: a float, or a list for multi-objective."""
+    """Raw value the user's objective returns for features z: a float (an int for integer-valued objectives), or a
+    list for multi-objective."""
     terms = task_spec["objective"]["terms"]
-    sgn = -1.0 if task_spec["objective"].get("negate") else 1.0
-    if task_spec["objective"].get("force_scalar"):
-        return sgn * _term(terms[0], z)
-    if task_spec.get("weights") is None and len(terms) == 1 and not task_spec["objective"].get("as_list"):
+    neg = bool(task_spec["objective"].get("negate"))
+    sgn = -1.0 if neg else 1.0
+    kind = task_spec["objective"].get("integer")
+    scalar = task_spec["objective"].get("force_scalar") or (
+        task_spec.get("weights") is None and len(terms) == 1 and not task_spec["objective"].get("as_list"))
+    if scalar and kind:
+        v = _integer_valued(_term(terms[0], z), kind)       # counted first, negated afterwards (exact)
+        return -v if neg else v
+    if scalar:
         return sgn * _term(terms[0], z)
     return [sgn * _term(t, z) for t in terms]
 
